@@ -310,6 +310,30 @@ def check_csv_regex_shapes(run):
             O.fail('C02.legacy_csv.regex_read_as_expression', w, sorted(tags), sorted((info or {}).get('tags', [])), 'get_all_rules(csv)+normalize_merchant')
 
 
+def check_csv_expression_patterns(run):
+    """a legacy CSV pattern may be an expression (contains("X"), amount > 5 and ...) and may carry [amount...] / [date...] modifiers like any CSV pattern: the
+    rule applies when the expression AND its modifiers hold"""
+    O = run.O
+    path = os.path.join(run.tmp, 'merchant_categories.csv')
+    text = ('"contains(""AAA"")[amount>200]",Bulk,CatBulk,SubBulk,bulk\n"contains(""AAA"")",Plain,CatP,SubP,\n'
+            '"startswith(""BBB"") and amount > 50[month=4]",April,CatApr,SubApr,apr\n')
+    open(path, 'w').write('Pattern,Merchant,Category,Subcategory,Tags\n' + text)
+    for desc, amount, d, win, tags in (('AAA STORE 123', 20.0, date(2025, 3, 5), ('Plain', 'CatP', 'SubP'), set()),
+                                       ('AAA STORE 123', 300.0, date(2025, 3, 5), ('Bulk', 'CatBulk', 'SubBulk'), {'bulk'}),
+                                       ('bbb shop', 100.0, date(2025, 4, 9), ('April', 'CatApr', 'SubApr'), {'apr'}),
+                                       ('bbb shop', 100.0, date(2025, 5, 9), None, set())):
+        O.case(('csv_expression', desc, amount, str(d)))
+        clear_engine_cache()
+        tuples = get_all_rules(path)
+        m, c, s, info = normalize_merchant(desc, tuples, amount=amount, txn_date=d, field=None, data_source='Amex')
+        clear_engine_cache()
+        w = {'csv_expression': True, 'csv_text': text, 'description': desc, 'amount': amount, 'date': str(d)}
+        if run.prop == 'C01' and ((m, c, s) != win if win else (c, s) != ('Unknown', 'Unknown')):
+            O.fail('C01.legacy_csv.expression_pattern_with_modifier', w, win or ('?', 'Unknown', 'Unknown'), (m, c, s), 'get_all_rules(csv)+normalize_merchant')
+        if run.prop == 'C02' and set((info or {}).get('tags', [])) != tags:
+            O.fail('C02.legacy_csv.expression_pattern_with_modifier', w, sorted(tags), sorted((info or {}).get('tags', [])), 'get_all_rules(csv)+normalize_merchant')
+
+
 def check_csv_most_specific(run):
     """rule_mode most_specific with a legacy CSV rule file: the highest-ranked matching rule wins, whatever the order of the rows (C09)"""
     O = run.O
@@ -429,6 +453,8 @@ def run(prop):
                     r.check(w['rules'], w['txn'], w['mode'])
                 elif 'csv_rules' in w:
                     check_csv(r, w['csv_rules'], w['txn'])
+                elif 'csv_expression' in w:
+                    check_csv_expression_patterns(r)
                 elif 'same_named' in w:
                     check_same_named_rules(r)
                 elif 'csv_most_specific' in w:
@@ -463,6 +489,7 @@ def run(prop):
                 check_list_valued_tags(r)
             if prop in ('C01', 'C02'):
                 check_csv_regex_shapes(r)
+                check_csv_expression_patterns(r)
             if prop == 'C09':
                 check_csv_most_specific(r)
             if prop in ('C02', 'C09'):
